@@ -96,6 +96,9 @@ def case(W, cfg):
         ks = list(table)
         ks = ks[::-1] if cfg["listing"] == 1 else ks[1:] + ks[:1]
         table = {k: table[k] for k in ks}
+        if cfg["listing"] == 1:
+            # ... and the links spelled as lists (a table read from JSON / YAML); the constructor accepts both spellings
+            table = {k: {ax: tuple(list(l) if l is not None else None for l in pair) for ax, pair in d.items()} for k, d in table.items()}
     if table is None:
         # expressibility does not depend on N by construction; guard anyway
         raise harness.HarnessError("orientation not expressible at this N")
